@@ -193,7 +193,7 @@ def main():
     # longest first would need a cost model; interleave contracts so that slow families spread over the pool
     jobs.sort(key=lambda j: -getattr(REGISTRY[j[0]], "cost", 1))
     with mp.get_context("fork").Pool(a.jobs, initializer=_init) as pool:
-        res = pool.map(_job, jobs, chunksize=max(1, min(8, len(jobs) // (a.jobs * 4) or 1)))
+        res = pool.map(_job, jobs, chunksize=1 if len(jobs) < 4000 else 4)
     t_sym = time.time() - t0
 
     agg = {}  # obligation -> stats
@@ -283,6 +283,15 @@ def main():
         for i in range(k):
             s = shapes[R.randrange(len(shapes))]
             rnd_items.append(dict(contract=n, shape={kk: (list(v) if isinstance(v, tuple) else v) for kk, v in s.items()}, witness={}, seed=R.getrandbits(32)))
+    # fallback for (contract, shape) jobs that fell out of the engine's reach: the same shape natively, random contents
+    seen_fb = set()
+    for (cn, sh, why) in undec:
+        key = (cn, json.dumps(sh, sort_keys=True, default=str))
+        if key in seen_fb or len(seen_fb) >= 2000:
+            continue
+        seen_fb.add(key)
+        for i in range(3 if len(undec) > 50 else 12):
+            rnd_items.append(dict(contract=cn, shape=sh, witness={}, seed=R.getrandbits(32), fallback=True))
     rnd_res = native_batch(rnd_items, a.jobs)
     t_native = time.time() - t1
     native_fail = []
@@ -372,7 +381,7 @@ def main():
     stub_unused = []
     for n in names:
         for s in REGISTRY[n].stubs:
-            if stub_calls.get(s, 0) == 0 and not a.limit and not a.only:
+            if stub_calls.get(s, 0) == 0 and not a.limit and not a.only and not any(u[0] == n for u in undec) and not any(x["contract"] == n for x in cand):
                 stub_unused.append(f"{n}: stub {s} never evaluated")
 
     obligations = {k: g for k, g in agg.items() if not any(k.startswith(c + ".") for c in canaries)}
